@@ -725,6 +725,69 @@ class FunctionTerms:
             return opaque
         return ("lambda", tuple(params), body)
 
+    def _generator_view(self, it: Term, ctx: tuple):
+        """`for T in gen(args)` where gen is a small generator FUNCTION of the package that no rule names, of the shape
+        ``[simple assignments]; for x in IT: [simple assignments]; yield V`` - is read as the loop over IT itself, T bound to V each round.
+        Returns {"iter": term of IT, "round": f(elem, ctx) -> term of V} or None."""
+        if not (isinstance(it, tuple) and it[0] == "call" and it[1][0] == "global" and it[1][1].startswith(self.prog.PKG + ".") and not it[3]):
+            return None
+        if len(self._inline_stack) >= 2 or any(a[0] == "star" for a in it[2]):
+            return None
+        ref = self.prog.find_func(it[1][1])
+        if ref is None or ref.cls is not None or ref.node.decorator_list or ref.node.name in self.prog.vocabulary() or "/tests/" in ref.module.rel():
+            return None
+        body = [st for st in ref.node.body if not (isinstance(st, ast.Expr) and isinstance(st.value, ast.Constant))]       # docstring
+        simple = (ast.Assign, ast.AnnAssign)
+        if not body or not isinstance(body[-1], ast.For) or body[-1].orelse or not all(isinstance(st, simple) for st in body[:-1]):
+            return None
+        loop = body[-1]
+        if not loop.body or not (isinstance(loop.body[-1], ast.Expr) and isinstance(loop.body[-1].value, ast.Yield) and loop.body[-1].value.value is not None) \
+                or not all(isinstance(st, simple) for st in loop.body[:-1]):
+            return None
+        if sum(1 for n in ast.walk(ref.node) if isinstance(n, (ast.Yield, ast.YieldFrom))) != 1:
+            return None
+        a = ref.node.args
+        if a.vararg or a.kwarg or a.kwonlyargs or a.posonlyargs or a.defaults or len(a.args) != len(it[2]):
+            return None
+        env2: dict[str, Term] = {p.arg: v for p, v in zip(a.args, it[2])}
+
+        def in_callee(fn):
+            saved = (self.module, self.locals)
+            self.module, self.locals = ref.module, bound_names(ref.node)
+            self._inline_stack.append({"qual": ref.qual, "returns": []})
+            try:
+                return fn()
+            finally:
+                self._inline_stack.pop()
+                self.module, self.locals = saved
+        base_ctx = ctx + (("inline", self.uid(), ref.qual),)
+        in_callee(lambda: self._block(body[:-1], env2, base_ctx))
+        iter_term = in_callee(lambda: self.ev(loop.iter, env2, base_ctx))
+
+        def one_round(elem: Term, frame_ctx: tuple) -> Term:
+            def run():
+                self._bind(loop.target, elem, env2, frame_ctx, loop)
+                self._block(loop.body[:-1], env2, frame_ctx)
+                return self.ev(loop.body[-1].value.value, env2, frame_ctx)
+            return in_callee(run)
+        return {"iter": iter_term, "round": one_round}
+
+    def lambda_of(self, t: Term) -> Term:
+        """A small package function passed as a VALUE (``key=_size_of_candidate``) as the lambda it could have been written as; ``t`` itself
+        when it is not a reference to such a function.  Nothing is added to this function's events."""
+        if not (isinstance(t, tuple) and t[0] == "global" and t[1].startswith(self.prog.PKG + ".")):
+            return t
+        ref = self.prog.find_func(t[1])
+        if ref is None or ref.cls is not None or not self.prog.inlinable(ref):
+            return t
+        saved = (self.module, self.locals, self.events, self._seq, self._stmt)
+        self.module, self.locals, self.events = ref.module, set(), []
+        try:
+            lam = self._local_function(ref.node, {}, ())
+        finally:
+            self.module, self.locals, self.events, self._seq, self._stmt = saved
+        return lam if lam[0] == "lambda" else t
+
     def _assigned_in(self, body: list[ast.stmt]) -> set[str]:
         out: set[str] = set()
         for s in body:
@@ -839,6 +902,9 @@ class FunctionTerms:
                         env[k] = ("ifexp", t, a, b) if pos else ("ifexp", t, b, a)
         elif isinstance(s, (ast.For, ast.AsyncFor)):
             it = self.ev(s.iter, env, ctx)
+            gview = self._generator_view(it, ctx)
+            if gview is not None:
+                it = gview["iter"]
             uid = self.uid()
             before = dict(env)
             mod = self._assigned_in(s.body)
@@ -858,7 +924,10 @@ class FunctionTerms:
             frame = ("for", uid, elem, it, s)
             self.emit("loop", s, ctx, uid=uid, iter=it, iter_node=s.iter, frame=frame)
             self._stmt = s
-            if zv is not None:
+            if gview is not None:
+                # the loop runs over what the generator function iterates; each round binds the caller's target to the value it yields
+                self._bind(s.target, gview["round"](elem, ctx + (frame,)), env, ctx + (frame,), s)
+            elif zv is not None:
                 for tgt, comp_t in zip(s.target.elts, comps):
                     self._bind(tgt, comp_t, env, ctx + (frame,), s)
             else:
@@ -1053,6 +1122,10 @@ class FunctionTerms:
             # np.compress(mask, a) / np.extract(mask, a) are a[mask] for a Boolean mask over a 1-D array
             if f in (("global", "numpy.compress"), ("global", "numpy.extract")) and len(args) == 2 and not kws and is_mask(args[0]):
                 return ("index", args[1], args[0])
+            # dict(zip((k1, k2), (v1, v2))) with both sequences given as displays is the dict display {k1: v1, k2: v2}
+            if f == ("global", "dict") and len(args) == 1 and not kws and args[0][0] == "call" and args[0][1] == ("global", "zip") and len(args[0][2]) == 2 \
+                    and not args[0][3] and all(a[0] in ("tuple", "list") for a in args[0][2]) and len(args[0][2][0][1]) == len(args[0][2][1][1]):
+                return ("dict", tuple(zip(args[0][2][0][1], args[0][2][1][1])))
             # range(0, n) and range(0, n, 1) are range(n)
             if f == ("global", "range") and not kws and len(args) in (2, 3) and args[0] == ("const", 0) and (len(args) == 2 or args[2] == ("const", 1)):
                 return ("call", f, (args[1],), ())
